@@ -140,6 +140,27 @@ def copies_real(g, plan):
     return out
 
 
+DTYPES = {1: "int8", 2: "int16", 4: "int32", 8: "float64", 16: "complex128"}
+
+
+def real_copies(g):
+    """The REAL cubed.core.ops._rechunk_plan on a virtual array with this geometry; the Spec is chosen so that the planner's
+    max_mem is exactly g['max_mem'] ((allowed - reserved) // 5 for local storage)."""
+    import cubed
+    import cubed.array_api as xp
+    from cubed.core.ops import _rechunk_plan
+
+    spec = cubed.Spec(allowed_mem=5 * g["max_mem"], reserved_mem=0)
+    x = xp.empty(tuple(g["shape"]), dtype=DTYPES[g["itemsize"]], chunks=tuple(g["src"]), spec=spec)
+    try:
+        with warnings.catch_warnings():
+            warnings.simplefilter("ignore")
+            return [(tuple(int(v) for v in c), tuple(int(v) for v in t))
+                    for c, t in _rechunk_plan(x, tuple(g["tgt"]), min_mem=g["min_mem"], allow_irregular=not g["regular"])]
+    except Exception:
+        return None
+
+
 def oracle(part, g, res, desc):
     """C14's statement evaluated on the real planner output."""
     if res[0] == "err":
@@ -183,8 +204,20 @@ def work(part, n):
         args = (f"{cbool(g['regular'])} {cZlist(g['shape'])} {cZlist(g['src'])} {cZlist(g['tgt'])} "
                 f"{cZ(g['itemsize'])} {cZ(g['min_mem'])} {cZ(g['max_mem'])} {tab}")
         expr = f"pres_plan_eqb (multistage_plan {args}) {plan_term(res)}"
-        if res[0] == "ok":
-            cps = copies_real(g, res[1])
+        if res[0] == "ok" and tuple(g["src"]) != tuple(g["tgt"]):
+            cps = real_copies(g)
+            if cps is None:
+                part.fail("rechunk-plan-raised", "_rechunk_plan raised although the planner accepted the geometry", desc)
+                cps = copies_real(g, res[1])
+            # the grid the last copy leaves in storage must be exactly the requested chunking
+            if not g["regular"] and cps and max(g["shape"]) <= 20000:
+                from cubed.core.ops import split_chunks
+                from cubed.utils import normalize_chunks
+                final = split_chunks(tuple(g["shape"]), cps[-1][0], cps[-1][1])
+                want = normalize_chunks(tuple(g["tgt"]), shape=tuple(g["shape"]), dtype="int8")
+                if tuple(tuple(int(v) for v in ax) for ax in final) != tuple(tuple(int(v) for v in ax) for ax in want):
+                    part.fail("rechunk-result-not-requested-chunking",
+                              f"last copy {cps[-1]} leaves an irregular grid, not the requested chunks {g['tgt']}", desc)
             cpt = "[" + "; ".join(f"({cZlist(a)}, {cZlist(b)})" for a, b in cps) + "]"
             expr += (f" && match multistage_plan {args} with POk p => copies_eqb (copies_of {cZlist(g['tgt'])} p) {cpt} | PErr _ => false end")
         part.case("plan", {"expr": expr, "desc": desc, "show": f"multistage_plan {args}"})
@@ -219,7 +252,7 @@ def e2e(ctx):
     import cubed
     import cubed.array_api as xp
 
-    reps = ctx.n(25, 300)
+    reps = ctx.n(60, 600)
     for _ in range(reps):
         nd = ctx.rng.choice([1, 2, 2, 3])
         shape = tuple(ctx.rng.randint(1, 14) for _ in range(nd))
@@ -227,7 +260,7 @@ def e2e(ctx):
         tgt = tuple(ctx.rng.randint(1, n) for n in shape)
         data = np.arange(int(np.prod(shape)), dtype="int64").reshape(shape)
         need = 8 * max(int(np.prod(src)), int(np.prod(tgt)))
-        allowed = need * ctx.rng.choice([6, 8, 20, 100]) + 200
+        allowed = need * ctx.rng.choice([5, 5, 5, 6, 8, 20, 100]) + ctx.rng.choice([0, 8, 40, 200])
         spec = cubed.Spec(allowed_mem=allowed, reserved_mem=0)
         irregular = ctx.rng.random() < 0.5
         desc = dict(shape=shape, src=src, tgt=tgt, allowed_mem=allowed, allow_irregular=irregular)
